@@ -234,6 +234,22 @@ pub fn run(a: &Args) {
         let nr = 1 + r.below(4);
         let rings: Vec<(i32, Vec<AP>)> = (0..nr).map(|_| (r.below(2) as i32, { let q = pool[r.below(pool.len())].clone(); let v = r.below(5) as u8; lift(pt, &q, v) })).collect();
         ring_event(&mut traces[i], &concs[i], pt, "with_rings", &rings);
+        // the same ring several times over (same role, other role, reversed): every one of them is kept
+        {
+            let q = pool[r.below(pool.len())].clone();
+            let base = lift(pt, &q, 0);
+            let mut rev = base.clone();
+            rev.reverse();
+            let (ra, rb) = (r.below(2) as i32, r.below(2) as i32);
+            let dup: Vec<(i32, Vec<AP>)> = match r.below(4) {
+                0 => vec![(ra, base.clone()), (ra, base.clone())],
+                1 => vec![(ra, base.clone()), (ra, rev.clone()), (ra, base.clone())],
+                2 => vec![(rb, base.clone()), (ra, base.clone()), (ra, base.clone()), (1 - ra, base.clone())],
+                _ => vec![(ra, rev.clone()), (ra, rev.clone()), (ra, base.clone())],
+            };
+            ring_event(&mut traces[i], &concs[i], pt, "with_rings", &dup);
+            k += 1;
+        }
         // polygon! in struct form: two rings of four vertices, declared (outer, inner)
         {
             let g4 = grid_rings(4);
